@@ -227,6 +227,31 @@ fn one(rep: &Report, data: Vec<DataItem>, rng: &Rng, core: bool, idx: usize, cli
             });
         }
     }
+    // OFFSET of a label inside the data section itself (`db offset L`): it denotes the label's offset, so it must be
+    // refused exactly when that offset does not fit a byte (the lenient direction: accepted, it would be truncated)
+    let last_seg_size: u32 = {
+        let mut n = 0u32;
+        for d in &data {
+            match d {
+                DataItem::Set(_) => n = 0,
+                DataItem::Def(x) => n += x.size(),
+            }
+        }
+        n
+    };
+    if !img.overflow && !labels.is_empty() && data.len() < 200 && last_seg_size < 65536 {
+        let (l, _) = &labels[idx % labels.len()];
+        let off = img.labels[l];
+        // (the rendered head ends with the start label: the extra definition goes in front of it)
+        let cut = head.rfind("start:").unwrap_or(head.len());
+        let text2 = format!("{}zzoff: db offset {}\nstart:\n", &head[..cut], l);
+        rep.count("`db offset <label>` probes", 1);
+        match assemble(&text2) {
+            Ok(a) if off > 255 => fail("offset-in-byte-definition-accepted", "`db offset L` is accepted although L's offset does not fit a byte (it would be truncated)", format!("label {} at offset {}; loader input tail {:?}", l, off, a.data.last())),
+            Err(AsmErr::Diag(_, m)) if off <= 255 => fail("offset-in-byte-definition-refused", "`db offset L` is refused although L's offset fits a byte", format!("label {} at offset {}: {}", l, off, m.replace('\n', " "))),
+            _ => {}
+        }
+    }
     if cli && !img.overflow {
         let out = run_cli(text.as_bytes(), &CliOpts::default());
         if out.timed_out {
@@ -389,6 +414,15 @@ pub fn run(rep: &Report) {
         let rng = Rng::new(0xC12D).fork(k as u64);
         rep.count("layouts with tens of thousands of data directives", 1);
         one(rep, d, &rng, true, 30_000 + k, true);
+    }
+    // labels at offsets whose bits 8..11 are clear although they do not fit a byte (0x1000, 0x2005, 0xF0FF, ...)
+    for (k, base) in [0x1000u16, 0x2005, 0xF0FF, 0x0100, 0x00FF, 0x0FFF].iter().enumerate() {
+        let d = vec![
+            DataItem::Def(DataDef { label: None, word: false, kind: DK::Fill(0x11, *base) }),
+            DataItem::Def(DataDef { label: Some("d1".into()), word: false, kind: DK::Num(0x77) }),
+        ];
+        let rng = Rng::new(0xC12F).fork(k as u64);
+        one(rep, d, &rng, true, 40_000 + 4 * k, false);
     }
     let t = rep.thorough();
     let n = if t { 200_000 } else { 12_000 };
